@@ -27,6 +27,8 @@ PROP = "C03"
 
 ONTO_R = ["PointwiseAffine/scalar", "PointwiseAffine/vector", "LeakyReLU/2d", "LULinear/D=2", "QRLinear/D=2,H=2", "SVDLinear/D=2,H=2", "NaiveLinear/D=2", "ActNorm/2d", "BatchNorm/eval", "AffineCoupling/D=2", "AdditiveCoupling/D=3", "MaskedAffineAutoregressive/D=2", "Permutation/[1,0]", "IdentityTransform", "CauchyCDFInverse/2d", "Logit/2d"]
 CACHED = ["NaiveLinear/D=2,cached,inverse-first", "LULinear/D=2,cached,inverse-first"]
+# (4) is C01's check; the configurations a density integral is most sensitive to and the defaults hide are repeated here
+JACOBIAN = ["AffineCoupling/uncond-affine", "Sigmoid/2d"]
 
 
 def job(cfg):
@@ -73,6 +75,8 @@ def configs(tier):
     # (sample) first, then log_prob - the forward log-abs-det then comes out of the shared cache
     for name in CACHED:
         cfgs.append({"from": "C01", "part": "(4) log-abs-det after a cached inverse pass", "cfg": {"type": "module", "case": name, "timeout": t}})
+    for name in JACOBIAN:
+        cfgs.append({"from": "C01", "part": "(4) log-abs-det of non-default configurations (unconditional coupling stage, temperature)", "cfg": {"type": "module", "case": name, "timeout": t}})
     for kind in ("StandardNormal", "DiagonalNormal", "ConditionalDiagonalNormal"):
         for shape in ([1], [2]):
             cfgs.append({"from": "C05", "part": "(3) base normaliser", "cfg": {"type": "normal", "kind": kind, "shape": shape, "timeout": t}})
